@@ -49,8 +49,11 @@ fn main() {
             let stats = mc::c07::c07(&mut run);
             run.finish(&stats)
         }
+        "C08" => simple_cmd("C08", mc::c08::c08),
+        "xcheck-parse" => mc::c08::xcheck_parse(args[2].parse().unwrap(), &args[3]),
         "C10" => simple_cmd("C10", mc::c10::c10),
         "C11" => simple_cmd("C11", mc::c11::c11),
+        "C12" => simple_cmd("C12", mc::c12::c12),
         "C16" => simple_cmd("C16", mc::apichecks::c16),
         "C17" => simple_cmd("C17", mc::apichecks::c17),
         "C18" => simple_cmd("C18", mc::apichecks::c18),
